@@ -20,6 +20,7 @@ package trace
 import (
 	"context"
 	"fmt"
+	"math"
 	"time"
 
 	"go.uber.org/multierr"
@@ -71,12 +72,18 @@ func (t *unresolvedTraceDistributed) Analyze(s logical.Schema) (logical.Plan, er
 	if limit == 0 {
 		limit = defaultLimit
 	}
+	// Every node must return its first offset+limit rows. The sum saturates: a wrapped
+	// uint32 would ask the nodes for a tiny window (e.g. limit=MaxUint32 with an offset).
+	nodeLimit := limit + t.originalQuery.Offset
+	if nodeLimit < limit {
+		nodeLimit = math.MaxUint32
+	}
 	temp := &tracev1.QueryRequest{
 		TagProjection: t.originalQuery.TagProjection,
 		Name:          t.originalQuery.Name,
 		Groups:        t.originalQuery.Groups,
 		Criteria:      t.originalQuery.Criteria,
-		Limit:         limit + t.originalQuery.Offset,
+		Limit:         nodeLimit,
 		OrderBy:       t.originalQuery.OrderBy,
 	}
 	if t.originalQuery.OrderBy == nil {
